@@ -485,6 +485,35 @@ fn strided_pairs(n: usize, stride: u64) -> Vec<u8> {
     b
 }
 
+/// A map of n entries whose keys are all of one kind the crate never interprets as a label: byte
+/// strings, floats, one-element arrays, tagged integers, nested one-entry maps.
+fn odd_keyed_map(n: usize, kind: usize) -> Vec<u8> {
+    let mut b = map_head(n);
+    for i in 0..n {
+        match kind {
+            0 => b.extend_from_slice(&[0x43, (i >> 16) as u8, (i >> 8) as u8, i as u8]),
+            1 => {
+                b.push(0xfb);
+                b.extend_from_slice(&(i as f64 + 0.5).to_be_bytes());
+            }
+            2 => {
+                b.push(0x81);
+                head(&mut b, 0, i as u64);
+            }
+            3 => {
+                b.extend_from_slice(&[0xd8, 0x64]);
+                head(&mut b, 0, i as u64);
+            }
+            _ => {
+                b.extend_from_slice(&[0xa1, 0x00]);
+                head(&mut b, 0, i as u64);
+            }
+        }
+        b.push(0x00);
+    }
+    b
+}
+
 fn families() -> &'static Vec<Family> {
     static F: std::sync::OnceLock<Vec<Family>> = std::sync::OnceLock::new();
     F.get_or_init(|| {
@@ -543,6 +572,15 @@ fn families() -> &'static Vec<Family> {
             Family { name: "key with n extras whose labels step by STRIDES[10] (mod 2^64)", ty: "CoseKey", build: |n| [map_head(n + 1), vec![0x01, 0x01], strided_pairs(n, STRIDES[10])].concat() },
             Family { name: "header with n extras whose labels step by STRIDES[11] (mod 2^64)", ty: "Header", build: |n| [map_head(n), strided_pairs(n, STRIDES[11])].concat() },
             Family { name: "key with n extras whose labels step by STRIDES[11] (mod 2^64)", ty: "CoseKey", build: |n| [map_head(n + 1), vec![0x01, 0x01], strided_pairs(n, STRIDES[11])].concat() },
+            Family { name: "header whose extra value is a map of n entries keyed by byte strings", ty: "Header", build: |n| [vec![0xa1, 0x18, 0x63], odd_keyed_map(n, 0)].concat() },
+            Family { name: "header whose extra value is a map of n entries keyed by floats", ty: "Header", build: |n| [vec![0xa1, 0x18, 0x63], odd_keyed_map(n, 1)].concat() },
+            Family { name: "header whose extra value is a map of n entries keyed by arrays", ty: "Header", build: |n| [vec![0xa1, 0x18, 0x63], odd_keyed_map(n, 2)].concat() },
+            Family { name: "header whose extra value is a map of n entries keyed by tagged integers", ty: "Header", build: |n| [vec![0xa1, 0x18, 0x63], odd_keyed_map(n, 3)].concat() },
+            Family { name: "header whose extra value is a map of n entries keyed by maps", ty: "Header", build: |n| [vec![0xa1, 0x18, 0x63], odd_keyed_map(n, 4)].concat() },
+            Family { name: "key whose parameter value is a map of n entries keyed by byte strings", ty: "CoseKey", build: |n| [vec![0xa2, 0x01, 0x01, 0x20], odd_keyed_map(n, 0)].concat() },
+            Family { name: "claims set whose claim value holds a map of n entries keyed by byte strings", ty: "ClaimsSet", build: |n| [vec![0xa1, 0x08, 0xa1, 0x01], odd_keyed_map(n, 0)].concat() },
+            Family { name: "COSE_Sign1 whose protected header holds a map of n entries keyed by floats in a list", ty: "CoseSign1", build: |n| [vec![0x84], bstr(&[vec![0xa1, 0x18, 0x63, 0x82, 0x00], odd_keyed_map(n, 1)].concat()), vec![0xa0, 0xf6, 0x40]].concat() },
+            Family { name: "value: map of n entries keyed by arrays", ty: "Value", build: |n| odd_keyed_map(n, 2) },
             // two wide places of one input at once (sizes add, so only a cost that multiplies them shows)
             Family { name: "COSE_Sign1 with n extras in the protected and n other extras in the unprotected header", ty: "CoseSign1", build: |n| two_buckets(vec![0x84], n, vec![0xf6, 0x40]) },
             Family { name: "COSE_Signature with n + n extras in its two headers", ty: "CoseSignature", build: |n| two_buckets(vec![0x83], n, vec![0x40]) },
@@ -891,10 +929,10 @@ pub fn property() -> Property {
                shape bombs (arity 0..7 arrays of arbitrary slots, counter-signature / key_ops / crit oddities); size/depth bombs up to 1 MiB (thorough 4 MiB): nesting to depth 2^17, huge declared lengths, chunk chains, wide flat arrays/maps/key sets/signer lists, \
                recipient nesting, and protected-header ⊃ counter-signature chains of depth up to 60000 in three shapes (protected / unprotected / alternating) x four forms (single counter-signature, array of one, array of two, alternating) inside nine carriers — through every decoding entry point (from_slice of every type, from_tagged_slice of the six tagged types, ProtectedHeader::from_cbor_bstr), \
                followed on accepted values by clone, ==, Debug, re-encode, drop and the to-be-signed / verify / MAC / decrypt helpers under their documented preconditions; in a supervised worker on a 2 MiB stack; \
-               oracle: no panic, no process death, heap peak <= 4096n+2MiB and total allocation <= 16384n+8MiB per entry point (>= 8x the maxima observed on the unchanged tree, which the evidence reports) (deterministic proxy for linear time), a watchdog for hangs (inconclusive, not a violation); plus a scaling oracle: for 60 hand-written families of wide inputs (incl. label progressions whose stride is a power of two or the inverse of a well-known hash multiplier) (labels ascending, descending and scattered; n trailing KDF strings, n extras, n signers, n recipients, n keys, n chunks ...; two wide places of one input at once: both header buckets of each structure, body + signer / recipient, header + counter-signature ...) and for generated families (maps of a generated valid item widened) thread CPU time of decode + follow-ups is measured on a quadrupling ladder and two consecutive steps costing more than 11x (linear: 4x, quadratic: 16x) fail; \
+               oracle: no panic, no process death, heap peak <= 4096n+2MiB and total allocation <= 16384n+8MiB per entry point (>= 8x the maxima observed on the unchanged tree, which the evidence reports) (deterministic proxy for linear time), a watchdog for hangs (inconclusive, not a violation); plus a scaling oracle: for 69 hand-written families of wide inputs (incl. label progressions whose stride is a power of two or the inverse of a well-known hash multiplier) (labels ascending, descending and scattered; n trailing KDF strings, n extras, n signers, n recipients, n keys, n chunks ...; two wide places of one input at once: both header buckets of each structure, body + signer / recipient, header + counter-signature ...) and for generated families (maps of a generated valid item widened) thread CPU time of decode + follow-ups is measured on a quadrupling ladder and two consecutive steps costing more than 11x (linear: 4x, quadratic: 16x) fail; \
                non-trivial = well-formed CBOR accepted by some entry point, or any bomb; distinct by input bytes",
         assumptions: &["'ordinary thread stack' = Rust's default 2 MiB for spawned threads, release build of the harness with overflow checks on", "time proportionality is checked through allocated bytes, a CPU-time quadrupling ladder on parametric wide inputs (threshold 11x on two consecutive steps) and a 120 s per-case watchdog"],
-        exhaustive_domains: &["scaling ladder (n, 4n, 16n, ... up to 4*10^5 elements / 2 MiB / 1 s) over 60 parametric wide-input families"],
+        exhaustive_domains: &["scaling ladder (n, 4n, 16n, ... up to 4*10^5 elements / 2 MiB / 1 s) over 69 parametric wide-input families"],
         case,
         exh_count,
         exh_case,
